@@ -10,6 +10,9 @@
 //!   m|mm|f <off> <len> <flen>   MemLoader / MmapLoader / FileLoader on a file of `flen` pattern bytes
 //!   u <hex>                     str::parse::<u64>
 //!   L <loader> <lochex> <offhex> <lenhex> <flen|none> <dimlen>   whole Model::load* path
+//!   c <loader> <namehex> <loc1hex> <loc2hex> <f1|none> <f2|none> <off> <len>
+//!                               two loads through ONE loader instance (PathBuf-keyed cache):
+//!                               files `name` (16 bytes) and `other.onnx_data` (8 bytes) exist
 //!
 //! Every answer is a pure function of the request line (plus the scratch directory), so
 //! "risky" requests (file loader with a large declared length, which may make the process
@@ -80,6 +83,11 @@ impl Ctx {
         std::fs::create_dir_all(ctx.dir.join("sub")).unwrap();
         std::fs::write(ctx.dir.join("sub").join("inner.data"), pattern_file(64)).unwrap();
         std::fs::write(ctx.dir.join("secret.txt"), pattern_file(64)).unwrap();
+        // Windows-style spellings: on Unix `..\x.data` / `dir\file.data` are plain names; the
+        // files a Windows reading would reach exist, and must not be what is served
+        std::fs::write(ctx.dir.parent().unwrap().join("x.data"), pattern_file(64)).unwrap();
+        std::fs::create_dir_all(ctx.dir.join("dir")).unwrap();
+        std::fs::write(ctx.dir.join("dir").join("file.data"), pattern_file(64)).unwrap();
         ctx
     }
     fn model_path(&self) -> PathBuf {
@@ -360,13 +368,26 @@ fn case_load(ctx: &Ctx, loader: &str, loc: &str, off: &str, len: &str, flen: Opt
     // the file named by `loc` (if the harness says one exists)
     // (a file left behind by a request that killed a child process is replaced/removed)
     let mut created = None;
-    let protected = ["model.onnx", "secret.txt", "sub"].contains(&loc);
+    let protected = ["model.onnx", "secret.txt", "sub", "dir"].contains(&loc);
     if loader != "mem" && creatable(loc.as_bytes()) && !protected {
         let p = ctx.dir.join(std::ffi::OsStr::from_bytes(loc.as_bytes()));
         let _ = std::fs::remove_file(&p);
         if let Some(fl) = flen {
             std::fs::write(&p, pattern_file(fl)).unwrap();
             created = Some(p);
+        }
+    }
+    // a location with trailing `/`, `/.` … noise: the regular file `name` really exists, so an
+    // io error below is the OS refusing `name/.` (ENOTDIR), not a missing file
+    let mut noise_file = None;
+    if loader != "mem" {
+        if let Some(n) = plain_name(loc.as_bytes()) {
+            if n.len() != loc.len() && creatable(n) && !["model.onnx", "secret.txt", "sub", "dir"].iter().any(|p| p.as_bytes() == n) {
+                let p = ctx.dir.join(std::ffi::OsStr::from_bytes(n));
+                if !p.exists() && std::fs::write(&p, pattern_file(16)).is_ok() {
+                    noise_file = Some(p);
+                }
+            }
         }
     }
     let res = match loader {
@@ -402,6 +423,9 @@ fn case_load(ctx: &Ctx, loader: &str, loc: &str, off: &str, len: &str, flen: Opt
     if let Some(p) = created {
         let _ = std::fs::remove_file(p);
     }
+    if let Some(p) = noise_file {
+        let _ = std::fs::remove_file(p);
+    }
     let ans = match &out {
         Ok(b) => format!("ok {} {}", b.len(), checksum(b)),
         Err(m) => classify_err(m),
@@ -428,6 +452,61 @@ fn case_load(ctx: &Ctx, loader: &str, loc: &str, off: &str, len: &str, flen: Opt
     (ans, fail)
 }
 
+// ---------------------------------------------------------------- two loads, one loader (cache key)
+
+const OTHER: &str = "other.onnx_data";
+
+fn case_cache(ctx: &Ctx, kind: &str, name: &str, loc1: &str, loc2: &str, off: u64, len: u64) -> (String, Option<String>) {
+    let pn = ctx.dir.join(std::ffi::OsStr::from_bytes(name.as_bytes()));
+    let po = ctx.dir.join(OTHER);
+    let _ = std::fs::remove_file(&pn);
+    std::fs::write(&pn, pattern_file(16)).unwrap();
+    std::fs::write(&po, pattern_file(8)).unwrap();
+    let loader: Box<dyn DataLoader> = match kind {
+        "mem" => {
+            let mut map = HashMap::new();
+            map.insert(name.to_string(), Arc::new(ConstantStorage::Buffer(pattern_file(16))));
+            map.insert(OTHER.to_string(), Arc::new(ConstantStorage::Buffer(pattern_file(8))));
+            Box::new(MemLoader::new(map))
+        }
+        "mmap" => Box::new(unsafe { MmapLoader::new(&ctx.model_path()) }.unwrap()),
+        _ => Box::new(FileLoader::new(&ctx.model_path()).unwrap()),
+    };
+    let mut answers = vec![];
+    let mut fail = None;
+    for loc in [loc1, loc2] {
+        let r = loader
+            .load(&DataLocation { path: loc.to_string(), offset: off, length: len })
+            .map(|s| s.data().to_vec())
+            .map_err(|e| e.to_string());
+        match &r {
+            Ok(b) => {
+                // oracle: served bytes come from `name` or OTHER (direct children with a data
+                // extension), from inside that file
+                let size = match plain_name(loc.as_bytes()) {
+                    Some(n) if n == name.as_bytes() && ext_rule(n) => Some(16u64),
+                    Some(n) if n == OTHER.as_bytes() => Some(8),
+                    _ => None,
+                };
+                match size {
+                    None => fail = Some(format!("data served for a location that names neither data file: {loc:?}")),
+                    Some(sz) if off + len > sz => fail = Some("out-of-range request accepted".to_string()),
+                    Some(_) if *b != (off..off + len).map(pattern).collect::<Vec<u8>>() => {
+                        fail = Some("served bytes differ from file[offset..offset+length]".to_string())
+                    }
+                    _ => {}
+                }
+                answers.push(format!("ok {} {}", b.len(), checksum(b)));
+            }
+            Err(m) => answers.push(classify_err(m)),
+        }
+    }
+    drop(loader);
+    let _ = std::fs::remove_file(&pn);
+    let _ = std::fs::remove_file(&po);
+    (answers.join(";"), fail)
+}
+
 // ---------------------------------------------------------------- dispatch
 
 fn s_of(h: &str) -> String {
@@ -450,6 +529,7 @@ fn exec(ctx: &Ctx, req: &str) -> (String, Option<String>) {
             if w[5] == "none" { None } else { Some(w[5].parse().unwrap()) },
             w[6].parse().unwrap(),
         ),
+        "c" => case_cache(ctx, w[1], &s_of(w[2]), &s_of(w[3]), &s_of(w[4]), w[7].parse().unwrap(), w[8].parse().unwrap()),
         _ => ("bad-request".into(), None),
     });
     match r {
@@ -533,9 +613,17 @@ fn run_in_child(out: &str, reqs: &[String]) -> Vec<(String, Option<String>)> {
 
 const TOKENS: &[&str] = &[
     "/", "/", "//", ".", "..", "...", "a", "b.data", "model.onnx_data", "w.onnx_data_1", ".data", "data",
-    "x.txt", "x.datax", "x.mydata", "x.metadata", "x.dat", "x.Data", "x.DATA", "x.onnx", "x.onnx_dat", "\\", "..\\", "C:\\", "C:", "é",
+    "x.txt", "x.datax", "x.mydata", "x.metadata", "x.dat", "x.Data", "x.DATA", "x.onnx", "x.onnx_dat", "\\", "..\\", "C:\\", "C:", "dir\\", "file.data", "x.data", "x.database", "m.data_evil", "é",
     "日本.data", "\u{0}", " ", "..data", "a.", "a..data", "%2e%2e", "\u{202e}", "\n", "\t", "~", "x.data.bak",
     "x.bak.data", ".onnx_data", "\u{2215}", "\u{ff0f}", "\u{2024}", "secret.txt", "sub", "inner.data", "outside.data",
+];
+
+/// Trailing-separator noise, the `data…` prefix rule, Windows-style names (on Unix a
+/// backslash is an ordinary file-name byte).
+const AUDIT_SPELLINGS: &[&str] = &[
+    "m.data/", "m.data/.", "m.data//./", "m.data/./.", "m.data//", "x.database", "m.data_evil", "w.onnx_data_7",
+    "w.onnx_database", "..\\x.data", "C:\\x.data", "dir\\file.data", "..\\..\\x.data", "\\\\server\\share\\x.data",
+    "C:x.data", "C:/x.data", "dir\\..\\file.data", ".\\x.data", "x.data\\", "x.data\\.", "dir/file.data", "../x.data",
 ];
 
 fn gen_location(rng: &mut Rng) -> String {
@@ -630,6 +718,10 @@ fn main() {
                 reqs.push((format!("p {}", hex(t.as_bytes())), "p_exhaustive", t.contains('/') || t.contains("..")));
             }
         }
+    }
+    // (a') the spellings named by the audit / the property's quantifier text, verbatim
+    for t in AUDIT_SPELLINGS {
+        reqs.push((format!("p {}", hex(t.as_bytes())), "p_audit_spellings", true));
     }
     // (b) generated locations
     let n_loc = if args.thorough { 200_000 } else { 20_000 };
@@ -726,7 +818,9 @@ fn main() {
             (*rng.pick(&[
                 "w.data", "w.onnx_data", "model.onnx.data", "w.onnx_data_2", "é.data", "a b.data", "..data",
                 "x.datafile", "secret.txt", "../outside.data", "sub/inner.data", "./w.data", "w.data/", "w.data/.",
-                "/etc/passwd", "..\\w.data", "w.txt", "w", "", ".data", "..", "model.onnx",
+                "/etc/passwd", "..\\w.data", "w.txt", "w", "", ".data", "..", "model.onnx", "m.data/", "m.data/.",
+                "m.data//./", "x.database", "m.data_evil", "..\\x.data", "C:\\x.data", "dir\\file.data", "dir/file.data",
+                "../x.data",
             ]))
             .to_string()
         } else {
@@ -739,7 +833,7 @@ fn main() {
         let exists = rng.chance(5, 6);
         let flen = if loader == "mem" {
             if exists { Some(flen_v) } else { None }
-        } else if exists && creatable(loc.as_bytes()) && !["model.onnx", "secret.txt", "sub"].contains(&loc.as_str()) {
+        } else if exists && creatable(loc.as_bytes()) && !["model.onnx", "secret.txt", "sub", "dir"].contains(&loc.as_str()) {
             Some(flen_v)
         } else {
             None
@@ -777,6 +871,41 @@ fn main() {
                 "mmap" => "load_mmap",
                 _ => "load_file",
             },
+            true,
+        ));
+    }
+
+    // (g) two loads through one loader: PathBuf-keyed cache, trailing noise, Windows-style names
+    let names = ["w.data", "x.database", "m.data_evil", "..\\x.data", "C:\\x.data", "dir\\file.data", "w.txt", "m.onnx_data"];
+    let n_cache = if args.thorough { 12_000 } else { 1_500 };
+    for i in 0..n_cache {
+        let kind = ["mem", "mmap", "file"][i % 3];
+        let name = *rng.pick(&names);
+        let variant = |rng: &mut Rng| -> String {
+            match rng.below(10) {
+                0 | 1 | 2 => name.to_string(),
+                3 => format!("{name}/"),
+                4 => format!("{name}/."),
+                5 => format!("{name}//./"),
+                6 => format!("./{name}"),
+                7 => OTHER.to_string(),
+                8 => format!("sub/../{name}"),
+                _ => format!("{OTHER}/."),
+            }
+        };
+        let (l1, l2) = (variant(&mut rng), variant(&mut rng));
+        let fl = |l: &str| -> String {
+            if l == name { "16".into() } else if l == OTHER { "8".into() } else { "none".into() }
+        };
+        let (off, len) = match rng.below(4) {
+            0 => (4u64, 8u64),          // fits `name` (16) but not OTHER (8)
+            1 => (0, 8),
+            2 => (rng.below(18), rng.below(18)),
+            _ => (0, 16),
+        };
+        reqs.push((
+            format!("c {kind} {} {} {} {} {} {off} {len}", hex(name.as_bytes()), hex(l1.as_bytes()), hex(l2.as_bytes()), fl(&l1), fl(&l2)),
+            match kind { "mem" => "cache_mem", "mmap" => "cache_mmap", _ => "cache_file" },
             true,
         ));
     }
